@@ -259,6 +259,14 @@ def part_laws(rec, li, n, seed, only=None):
                     it = g.integrate(da, "X")
                     if not np.allclose(ci.values[..., -1], it.values, rtol=1e-12, atol=0) or not np.allclose(it.values, (base * w).sum(-1), rtol=1e-12):
                         rec.violation("law-cumint", "last-not-integrate", case, it.values, ci.values[..., -1])
+                        continue
+                    # the same relation on data with a missing value (a land cell): whatever integrate makes of it
+                    hole = base.copy()
+                    hole[0, min(1, n - 1)] = np.nan
+                    dh = xr.DataArray(hole, dims=da.dims)
+                    cih, ith = g.cumint(dh, "X", to=to, boundary=rule, fill_value=fv), g.integrate(dh, "X")
+                    if not np.allclose(cih.values[..., -1], ith.values, rtol=1e-12, atol=0, equal_nan=True):
+                        rec.violation("law-cumint", "last-not-integrate:missing-value", dict(case, data="with-nan"), ith.values, cih.values[..., -1])
             except Exception as e:
                 rec.violation("law-cumint", "raise:" + exc_sig(e), case, "array", str(e)[:200])
             # the same with a metric that does not vary along the integrated axis (dx as a function of y only, as on a regular
@@ -302,6 +310,26 @@ def part_laws(rec, li, n, seed, only=None):
                     break
         except Exception as e:
             rec.violation("law-cumint", "raise-after-overwrite:" + exc_sig(e), case3, "array", str(e)[:200])
+    # a Grid built with its own default shift for the centre position: `to` omitted follows it
+    from .c01 import build_grid as _bg
+
+    for p_ in layout:
+        if p_ == "center":
+            continue
+        case4 = dict(part="law", law="grid-default-shift", li=li, n=n, to=p_)
+        if only is not None and only != case4:
+            continue
+        rec.case(("law-dshift", li, n, p_), True, sample=case4, calls=2)
+        try:
+            g4 = _bg({"X": layout}, {"X": n}, dict(periodic=False, default_shifts={"X": {"center": p_}}))
+            for op4 in ("cumsum", "interp"):
+                r4 = getattr(g4, op4)(da, "X", boundary="extend")
+                e4 = S.ref_cumsum(base, "center", p_, n, "extend", 0.0) if op4 == "cumsum" else S.ref_stencil(base, "center", p_, n, "interp", "extend", 0.0)
+                if r4.dims != ("b", S.dimname("X", p_)) or not np.array_equal(r4.values, e4):
+                    rec.violation("law-default-shift", f"{op4}-ignores-the-grid's-default-shift", dict(case4, op=op4), [S.dimname("X", p_)], list(r4.dims))
+                    break
+        except Exception as e:
+            rec.violation("law-default-shift", "raise:" + exc_sig(e), case4, "array", str(e)[:200])
 
 
 def shards(tier, seed):
